@@ -235,6 +235,16 @@ class RefOpset:
         with np.errstate(all="ignore"):
             return RT((1 / (1 + np.exp(-x.astype(np.float64)))).astype(x.dtype))
 
+    def Sqrt(self, a):
+        (x,) = self._p("Sqrt", a)
+        with np.errstate(all="ignore"):
+            return RT(np.sqrt(x))
+
+    def Exp(self, a):
+        (x,) = self._p("Exp", a)
+        with np.errstate(all="ignore"):
+            return RT(np.exp(x))
+
     def Tanh(self, a):
         (x,) = self._p("Tanh", a)
         return RT(np.tanh(x))
